@@ -15,6 +15,6 @@ for f in sorted(os.listdir(C)):
     if d[:4] != b'\x7fELF':
         continue
     idx.append(dict(name=f, sha256=hashlib.sha256(d).hexdigest(), size=len(d),
-                    origin=old.get(f, {}).get('origin', 'tools/build_corpus_extras.sh')))
+                    origin=old.get(f, {}).get('origin', 'tools/build_corpus_derived.py' if f.startswith('derived__') else 'tools/build_corpus_extras.sh')))
 json.dump(idx, open(os.path.join(C, 'INDEX.json'), 'w'), indent=1)
 print(len(idx), sum(r['size'] for r in idx))
